@@ -5,7 +5,7 @@ CONSTANTS
  Gg = 2
  Vars = {"opt"}
  Ns = {2, 3}
- MsgVecs <- MV23
+ MsgVecs <- MV23s
  CCoins <- C6
  SCoins <- C2d
  Tamper = FALSE
